@@ -271,8 +271,13 @@ func H_C04_scaler(v *zzverif.T) {
 	shape := v.CInts("shape")
 	n := v.CInt("n")
 	xs := zzverif.Syms[float32](v, "x", zzverif.Prod(shape))
+	// offset and scale may have different lengths (case key "ns": length of scale; default: the same)
+	ns := n
+	if v.Has("ns") {
+		ns = v.CInt("ns")
+	}
 	off := zzverif.Syms[float32](v, "o", n)
-	sc := zzverif.Syms[float32](v, "s", n)
+	sc := zzverif.Syms[float32](v, "s", ns)
 	attrs := []*onnx.AttributeProto{zzAttrFloats("offset", append([]float32(nil), off...)), zzAttrFloats("scale", append([]float32(nil), sc...))}
 	X := zzverif.NewTensor(xs, shape)
 	snap := v.Snapshot(X)
@@ -292,7 +297,7 @@ func H_C04_scaler(v *zzverif.T) {
 			return
 		}
 		v.AssertUnchanged("C04.scaler-input-unmodified", X, snap)
-		if n != c && n != 1 {
+		if (n != c && n != 1) || (ns != c && ns != 1) {
 			v.Assert("C04.scaler-wrong-length-is-an-error", r.Err != nil)
 			continue
 		}
@@ -302,11 +307,14 @@ func H_C04_scaler(v *zzverif.T) {
 		}
 		want := make([]float32, len(xs))
 		for i, x := range xs {
-			q := i % c
+			qo, qs := i%c, i%c
 			if n == 1 {
-				q = 0
+				qo = 0
 			}
-			want[i] = (x - off[q]) * sc[q]
+			if ns == 1 {
+				qs = 0
+			}
+			want[i] = (x - off[qo]) * sc[qs]
 		}
 		v.AssertTensor("C04.scaler-values", r.Outs[0], shape, want)
 	}
